@@ -269,6 +269,13 @@ pub uninterp spec fn pseq<T, P>(p: &syn::punctuated::Punctuated<T, P>) -> Seq<T>
 /// Whether the list ends in a trailing punctuation token.
 pub uninterp spec fn ptrailing<T, P>(p: &syn::punctuated::Punctuated<T, P>) -> bool;
 
+pub assume_specification<T, P: core::default::Default>[ syn::punctuated::Punctuated::<T, P>::push ](p: &mut syn::punctuated::Punctuated<T, P>, value: T)
+    ensures pseq(final(p)) == pseq(old(p)).push(value);
+pub assume_specification<T, P>[ <syn::punctuated::Punctuated<T, P> as core::default::Default>::default ]() -> (r: syn::punctuated::Punctuated<T, P>)
+    ensures pseq(&r).len() == 0;
+pub assume_specification<T, P>[ syn::punctuated::Punctuated::<T, P>::new ]() -> (r: syn::punctuated::Punctuated<T, P>)
+    ensures pseq(&r).len() == 0;
+
 /// tokens of a whole punctuated list `x1 p x2 p ... [p]` (uninterpreted)
 pub uninterp spec fn punctuated_toks<T, P>(p: &syn::punctuated::Punctuated<T, P>) -> Seq<Tok>;
 impl<T: ToTokens, P: ToTokens> ToTokensSpecImpl for syn::punctuated::Punctuated<T, P> {
@@ -405,6 +412,13 @@ pub assume_specification<'a, T, P>[ <syn::punctuated::Pairs<'a, T, P> as core::i
 }
 
 verus! {
+// ------------------------------------------------------------------ Clone of syntax nodes is the identity on the abstract value
+pub assume_specification[ <syn::Type as core::clone::Clone>::clone ](x: &syn::Type) -> (r: syn::Type) ensures r == *x;
+pub assume_specification[ <syn::GenericParam as core::clone::Clone>::clone ](x: &syn::GenericParam) -> (r: syn::GenericParam) ensures r == *x;
+pub assume_specification[ <syn::WherePredicate as core::clone::Clone>::clone ](x: &syn::WherePredicate) -> (r: syn::WherePredicate) ensures r == *x;
+pub assume_specification[ <syn::TypeParamBound as core::clone::Clone>::clone ](x: &syn::TypeParamBound) -> (r: syn::TypeParamBound) ensures r == *x;
+pub assume_specification[ <syn::Signature as core::clone::Clone>::clone ](x: &syn::Signature) -> (r: syn::Signature) ensures r == *x;
+
 // ------------------------------------------------------------------ core / alloc
 /// the length of a slice is a usize
 pub axiom fn axiom_slice_len<T>(s: &[T])
